@@ -102,6 +102,11 @@ def reactor_cases(rng, tier):
     c['setup']['axial_plane'] = [0.2002, 0.3000001, 0.30000000000004, 0.5,
                                  0.50015, 0.35]
     out.append(('req-planes', c))
+    # requested planes outside the core (two in a row below, two in a row
+    # above) are ignored: the input still builds, on the planes inside
+    c = copy.deepcopy(sl['rod3-flowgap'])
+    c['setup']['axial_plane'] = [-0.2, -0.1, 0.2002, 0.35, 0.9, 1.4]
+    out.append(('req-planes-outside-the-core', c))
     for name, dz in (('user-above', 0.02), ('user-below', 0.0013),
                      ('user-odd', 0.00371)):
         c = copy.deepcopy(sl['multi-simple'])
